@@ -181,7 +181,9 @@ impl AstLowering {
                     // 1. Known struct from current file (in struct_names map)
                     // 2. Uppercase identifier heuristic (works cross-file like old codegen)
                     let is_known_struct = self.struct_names.contains_key(name);
-                    let is_uppercase = name.chars().next().map(|c| c.is_uppercase()).unwrap_or(false);
+                    // A function declared in this module keeps being a function even when its name is capitalised.
+                    let is_uppercase = name.chars().next().map(|c| c.is_uppercase()).unwrap_or(false)
+                        && !self.function_names.contains(name);
 
                     if is_known_struct || is_uppercase {
                         // Get type if known, otherwise Unknown (will be inferred at emit time)
